@@ -61,6 +61,8 @@ def rx(e, S="self"):
         return "%s.%s.product" % (S, e[1])
     if k == "dyn":
         return "%s.%s()" % (S, e[1])
+    if k == "dynel":
+        return "%s.%s[%s].%s()" % (S, e[1], rx(e[2], S), e[3])
     raise ValueError("rx " + repr(e))
 
 
